@@ -830,6 +830,7 @@ DIRECTED = [
     C("youtube", "https://youtu.be", [VID]), C("youtube", "https://youtu.be", [VID + "%5D"]), C("youtube", "https://youtu.be", ["short"]), C("youtube", "https://youtu.be", ["", VID]),
     C("youtube", YTH, ["watch"], False, "v=" + VID + "&list="), C("youtube", YTH, ["watch"], False, "list=&v=" + VID + "&list=PL1"), C("youtube", YTH, ["watch"], False, "v=" + VID + "&list=&t=1"),
     C("youtube", "http://:80", ["watch"], False, "v=" + VID), C("youtube", "http://@", ["x"], False), C("youtube", YTH, ["embed", "abc"], False), C("youtube", YTH, ["embed"], False), C("youtube", YTH, ["v", "x" * 30], False),
+    C("youtube", YTH, ["c", ".."]), C("youtube", YTH, ["c", "."]), C("youtube", YTH, [".."]), C("youtube", YTH, ["c", "..", "videos"]),  # the short form refuses dot segments as names: so must the /c/ form
     C("youtube", "http://youtu.be", [VID], False, "list=PL1", "#/watch?v=ObJTChxhhvY"), C("youtube", YTH, ["watch"], False, "v=" + VID + "&list=PL1", "#/watch?v=ObJTChxhhvY"), C("youtube", YTH, ["embed", VID], False, "list=PL1", "#top"),
     C("youtube", YTH, ["watch"], False, "v=" + VID), C("youtube", YTH, ["watch"], False, "v=" + VID + "&list=PL1"), C("youtube", YTH, ["watch"], False, "list=PL1&v=" + VID), C("youtube", YTH, ["watch"]),
     C("youtube", YTH, ["watch"], True, "v=" + VID), C("youtube", YTH, ["watch"], False, "v=" + VID + "xyz"), C("youtube", YTH, ["embed"], True), C("youtube", YTH, ["embed", VID], False, "autoplay=1"),
